@@ -22,7 +22,7 @@ theorem moduleText_bb_nonprim (n : Text.WNet) (d : Text.WDef) (h : d.lib ≠ "hd
   simp only [optsBB, optsFrag, hp, Bool.false_and, Bool.false_eq_true, if_false]
   rfl
 
-/-- the text of `_write_module` for a primitive without inner nets -/
+/-- the text of `_write_module` for a primitive -/
 def renderLeaf (lf : WLeaf) : String :=
   "`celldefine\n" ++ "" ++
     ("module " ++ fixName lf.name ++ "\n" ++ "" ++ "(" ++
@@ -55,32 +55,22 @@ theorem cablesOfPins_free : ∀ (pins : List (Option Bit)) (acc : List String), 
     | none => simp only [List.foldl_cons]; exact ih acc h.2
     | some v => simp at h
 
-theorem astLeafPort_spec (p : Text.WPort) (q : PDecl) (h : astLeafPort p = some q) :
-    ∃ nm dir, p.name = some nm ∧ dirOfS p.dir = some dir ∧ p.pins.all (fun b => b.isNone) = true ∧ 1 ≤ p.width ∧
-      p.attrs.getD [] = [] ∧ q = ⟨nm, dir, emitDeclRange p.lower p.width, []⟩ := by
-  unfold astLeafPort at h
-  split at h
-  · rename_i nm dir hn hd
-    split at h
-    · rename_i hc
-      simp only [Option.some.injEq] at h
-      exact ⟨nm, dir, hn, hd, hc.1, hc.2.1, hc.2.2, h.symm⟩
-    · cases h
-  · cases h
-
-theorem headerPort_leaf (r : Text.WDef) (p : Text.WPort) (q : PDecl) (h : astLeafPort p = some q) :
+theorem headerPort_leaf (r : Text.WDef) (p : Text.WPort) (q : PDecl) (h : astLeafPort r p = some q) :
     Text.headerPortText r p = .ok ("    " ++ fixName q.name) := by
-  obtain ⟨nm, dir, hn, _, hfree, _, _, e⟩ := astLeafPort_spec p q h
-  unfold Text.headerPortText emitHeaderPort isConcatenated
-  simp only [hn, bind, Except.bind, pure, Except.pure, isConcatGo_free p.pins (some nm) false none hfree,
-    Bool.false_eq_true, if_false]
+  obtain ⟨nm, dir, hn, _, _, _, e, hcase⟩ := astLeafPort_spec r p q h
+  have he : emitHeaderPort (Text.envOf r) nm p.pins = some none := by
+    rcases hcase with hfree | ⟨c, _, _, _, _, he⟩
+    · unfold emitHeaderPort isConcatenated
+      simp only [isConcatGo_free p.pins (some nm) false none hfree, Bool.false_eq_true, if_false]
+    · exact he
+  unfold Text.headerPortText
+  simp only [hn, bind, Except.bind, pure, Except.pure, he]
   rw [e]
 
 theorem bpStep_leaf (r : Text.WDef) (p : Text.WPort) (q : PDecl) (txt : String) (written : List String)
-    (h : astLeafPort p = some q) (hnw : q.name ∉ written) :
+    (h : astLeafPort r p = some q) (hnw : q.name ∉ written) :
     bpStep r (txt, written) p = .ok (txt ++ portLine q, written ++ [q.name]) := by
-  obtain ⟨nm, dir, hn, hd, hfree, hw, ha, e⟩ := astLeafPort_spec p q h
-  have hcs : Text.cablesOfPins p.pins = [] := cablesOfPins_free p.pins [] hfree
+  obtain ⟨nm, dir, hn, hd, hw, ha, e, hcase⟩ := astLeafPort_spec r p q h
   have hqn : q.name = nm := by rw [e]
   have hnotw : written.contains nm = false := by
     rw [hqn] at hnw
@@ -91,15 +81,27 @@ theorem bpStep_leaf (r : Text.WDef) (p : Text.WPort) (q : PDecl) (txt : String) 
     cases hp : p.attrs with
     | none => rfl
     | some l => rw [hp] at ha; simp only [Option.getD_some] at ha; rw [ha]; rfl
-  unfold bpStep
-  simp only [bind, Except.bind, hcs, List.isEmpty_nil, if_true, hn, pure, Except.pure, List.foldlM_cons, List.foldlM_nil,
-    hnotw, Bool.false_eq_true, if_false, bracketsDefining_eq p.lower p.width hw, hstar]
-  rw [e]
-  simp only [portLine, starText, dirString_of p.dir dir hd, String.append_assoc]
-  rfl
+  rcases hcase with hfree | ⟨c, hfc, hl, hwd, hpins, _⟩
+  · have hcs : Text.cablesOfPins p.pins = [] := cablesOfPins_free p.pins [] hfree
+    unfold bpStep
+    simp only [bind, Except.bind, hcs, List.isEmpty_nil, if_true, hn, pure, Except.pure, List.foldlM_cons, List.foldlM_nil,
+      hnotw, Bool.false_eq_true, if_false, bracketsDefining_eq p.lower p.width hw, hstar]
+    rw [e]
+    simp only [portLine, starText, dirString_of p.dir dir hd, String.append_assoc]
+    rfl
+  · have hcw : 1 ≤ c.width := by rw [← hwd]; exact hw
+    have hcs : Text.cablesOfPins p.pins = [nm] := by rw [hpins]; exact cablesOfPins_whole nm c.lower c.width hcw
+    have hcn : c.name = nm := by simpa using List.find?_some hfc
+    unfold bpStep
+    simp only [bind, Except.bind, hcs, List.isEmpty_cons, Bool.false_eq_true, if_false, pure, Except.pure,
+      List.filterMap_cons, hfc, Option.map_some, List.filterMap_nil, List.foldlM_cons, List.foldlM_nil, hcn, hnotw,
+      bracketsDefining_eq c.lower c.width hcw, hstar]
+    rw [e, hl, hwd]
+    simp only [portLine, starText, dirString_of p.dir dir hd, String.append_assoc]
+    rfl
 
 theorem bodyPorts_leaf (r : Text.WDef) : ∀ (ps : List Text.WPort) (qs : List PDecl) (txt : String) (written : List String),
-    ps.mapM astLeafPort = some qs → (∀ q ∈ qs, q.name ∉ written) → (qs.map (·.name)).Nodup →
+    ps.mapM (astLeafPort r) = some qs → (∀ q ∈ qs, q.name ∉ written) → (qs.map (·.name)).Nodup →
     ps.foldlM (bpStep r) (txt, written) = .ok (txt ++ String.join (qs.map portLine), written ++ qs.map (·.name)) := by
   intro ps
   induction ps with
@@ -111,10 +113,10 @@ theorem bodyPorts_leaf (r : Text.WDef) : ∀ (ps : List Text.WPort) (qs : List P
   | cons p ps ih =>
     intro qs txt written hm hnw hnd
     rw [List.mapM_cons] at hm
-    cases hp : astLeafPort p with
+    cases hp : astLeafPort r p with
     | none => simp [hp] at hm
     | some q =>
-      cases hrest : ps.mapM astLeafPort with
+      cases hrest : ps.mapM (astLeafPort r) with
       | none => simp [hp, hrest] at hm
       | some qs' =>
         simp only [hp, hrest, Option.bind_eq_bind, Option.bind_some, pure, Option.some.injEq] at hm
@@ -146,7 +148,7 @@ theorem moduleText_leaf (n : Text.WNet) (r : Text.WDef) (lf : WLeaf) (ht : LeafT
   obtain ⟨qs, hqs, e⟩ := ha
   subst e
   have hhp : r.ports.mapM (Text.headerPortText r) = .ok (qs.map (fun p => "    " ++ fixName p.name)) :=
-    mapM_opt_exc astLeafPort (Text.headerPortText r) (fun p => "    " ++ fixName p.name)
+    mapM_opt_exc (astLeafPort r) (Text.headerPortText r) (fun p => "    " ++ fixName p.name)
       (fun a b h => headerPort_leaf r a b h) r.ports qs hqs
   have hbp : Text.bodyPortsText r = .ok (String.join (qs.map portLine) ++ "\n") := by
     rw [bodyPortsText_eq]
